@@ -28,6 +28,14 @@ var VerifDir = func() string {
 	return "/verif"
 }()
 
+// OutDir is where evidence/ and replays/ are written (VERIF_OUT overrides it for runs against seeded trees).
+var OutDir = func() string {
+	if d := os.Getenv("VERIF_OUT"); d != "" {
+		return d
+	}
+	return VerifDir
+}()
+
 // Case is one enumerated case in a serialisable form (what a replay file holds).
 type Case struct {
 	Kind string `json:"kind"`           // check-specific family name
@@ -51,6 +59,8 @@ func (c Case) Printable() string {
 	d := c.Data
 	if c.Hex != "" {
 		d = strconv.Quote(string(c.Bytes()))
+	} else if strings.ContainsAny(d, "\n\r") {
+		d = strconv.Quote(d)
 	}
 	if c.Cfg != "" {
 		return c.Kind + "[" + c.Cfg + "]:" + d
@@ -653,7 +663,7 @@ func finish(ch *Check, tier string, seed int64, p *Part, wall time.Duration) int
 		return ka < kb
 	})
 	printed := map[string]int{}
-	os.MkdirAll(filepath.Join(VerifDir, "replays"), 0o755)
+	os.MkdirAll(filepath.Join(OutDir, "replays"), 0o755)
 	for _, v := range p.NewViols {
 		if printed[v.Class] >= 3 {
 			continue
@@ -717,8 +727,8 @@ func finish(ch *Check, tier string, seed int64, p *Part, wall time.Duration) int
 		"violations":  nviol,
 	}
 	b, _ := json.MarshalIndent(ev, "", " ")
-	os.MkdirAll(filepath.Join(VerifDir, "evidence"), 0o755)
-	if err := os.WriteFile(filepath.Join(VerifDir, "evidence", ch.ID+".json"), append(b, '\n'), 0o644); err != nil {
+	os.MkdirAll(filepath.Join(OutDir, "evidence"), 0o755)
+	if err := os.WriteFile(filepath.Join(OutDir, "evidence", ch.ID+".json"), append(b, '\n'), 0o644); err != nil {
 		fmt.Fprintln(os.Stderr, err)
 		return 2
 	}
@@ -736,7 +746,7 @@ func finish(ch *Check, tier string, seed int64, p *Part, wall time.Duration) int
 func writeReplay(id, tier string, v *Viol) string {
 	b, _ := json.MarshalIndent(map[string]any{"property": id, "tier": tier, "class": v.Class, "detail": v.Detail, "case": v.Case}, "", " ")
 	sum := sha1.Sum([]byte(v.Class + v.Case.Key()))
-	path := filepath.Join(VerifDir, "replays", fmt.Sprintf("%s-%s.json", id, hex.EncodeToString(sum[:6])))
+	path := filepath.Join(OutDir, "replays", fmt.Sprintf("%s-%s.json", id, hex.EncodeToString(sum[:6])))
 	os.WriteFile(path, append(b, '\n'), 0o644)
 	return path
 }
